@@ -67,4 +67,10 @@ partial def loop (h : IO.FS.Stream) (out : IO.FS.Stream) (f : List String → St
   out.putStrLn (f (tokens line))
   loop h out f
 
+/-- entry point of a per-property oracle executable -/
+def runMain (handle : List String → Option String) : IO Unit := do
+  let stdin ← IO.getStdin
+  let stdout ← IO.getStdout
+  loop stdin stdout (fun toks => (handle toks).getD "bad-op")
+
 end Oracle
